@@ -21,6 +21,13 @@ theorem sites_registered_proof : sitesRegistered Gen.scannedSites = true := by d
 /-- Every container attribute of the per-Checker classes the scan finds has a registered kind. -/
 theorem caches_registered_proof : cachesRegistered Gen.scannedCaches = true := by decide
 
+/-- Every piece of process-level state the scan finds has a registered kind. -/
+theorem proc_state_registered_proof : procStateRegistered Gen.scannedProcState = true := by decide
+
+/-- Every `id(…)` key / hash / membership expression the scan finds is registered with the reason
+why the address identifies a live object. -/
+theorem id_keys_registered_proof : idKeysRegistered Gen.scannedIdKeys = true := by decide
+
 
 /-! ## Order sites -/
 
@@ -762,5 +769,64 @@ theorem answerAfter_eq_semB (W : World) (rk : Rank) (fuel : Nat) (h : List Query
     (by rw [hinv.2]; intro e he; cases he)
   unfold answerAfter
   exact hstep.1
+
+/-! ### Histories of one process: several Checkers, process-level table -/
+
+/-- The key of the process-level table determines what the memoised computation reads: entries are
+keyed by values, never by bare addresses. -/
+def KeyedByValue (key : Obj → Nat) : Prop := ∀ o o' : Obj, key o = key o' → o.content = o'.content
+
+theorem keyedByValue_determines (key : Obj → Nat) (g : Nat → Nat) (hk : KeyedByValue key) :
+    KeyDetermines key (fun o : Obj => some (g o.content)) := by
+  intro o o' h
+  show some (g o.content) = some (g o'.content)
+  rw [hk o o' h]
+
+/-- The queries among the events stay below the fuel. -/
+def fuelOKE (W : World) (rk : Rank) (fuel : Nat) (es : List Event) : Bool :=
+  es.all fun e => match e with
+    | .query q => decide (rk q.p (W.tobj q.v) < fuel)
+    | _ => true
+
+/-- Invariant of the process state. -/
+def ProcOK (W : World) (rk : Rank) (key : Obj → Nat) (g : Nat → Nat) (s : PSt) : Prop :=
+  CacheOK W rk s.chk ∧ s.chk.stack = [] ∧ MemoInv key (fun o : Obj => some (g o.content)) s.proc
+
+theorem stepE_spec (W : World) (rk : Rank) (hr : rankOK W rk = true) (fuel : Nat) (key : Obj → Nat)
+    (g : Nat → Nat) (hk : KeyedByValue key) (s : PSt) (hs : ProcOK W rk key g s) (e : Event)
+    (hf : fuelOKE W rk fuel [e] = true) :
+    (stepE W fuel key g s e).1 = (stepE W fuel key g {} e).1 ∧ ProcOK W rk key g (stepE W fuel key g s e).2 := by
+  obtain ⟨hc, hst, hm⟩ := hs
+  have h0c : CacheOK W rk ({} : St) := by intro e a p v bm hmem; cases hmem
+  have h0m : MemoInv key (fun o : Obj => some (g o.content)) ([] : List (Nat × Nat)) := by
+    intro q v hl; simp at hl
+  cases e with
+  | query q =>
+    have hlt : rk q.p (W.tobj q.v) < fuel := by simpa [fuelOKE] using hf
+    have h1 := check_spec W rk hr q.ex fuel s.chk q.p q.a q.v hlt hc (by rw [hst]; intro e he; cases he)
+    have h2 := check_spec W rk hr q.ex fuel {} q.p q.a q.v hlt h0c (by intro e he; cases he)
+    simp only [stepE]
+    exact ⟨by rw [h1.1, h2.1], h1.2.1, by rw [h1.2.2, hst], hm⟩
+  | newChecker =>
+    simp only [stepE]
+    exact ⟨trivial, h0c, rfl, hm⟩
+  | resolve o =>
+    have hkd := keyedByValue_determines key g hk
+    have h1 := memoStep_spec key (fun _ => true) (fun o : Obj => some (g o.content)) (fun _ => none) hkd s.proc hm o
+    have h2 := memoStep_spec key (fun _ => true) (fun o : Obj => some (g o.content)) (fun _ => none) hkd [] h0m o
+    simp only [stepE, procStep]
+    exact ⟨by rw [h1.1, h2.1], hc, hst, h1.2⟩
+
+theorem runE_inv (W : World) (rk : Rank) (hr : rankOK W rk = true) (fuel : Nat) (key : Obj → Nat)
+    (g : Nat → Nat) (hk : KeyedByValue key) : ∀ (h : List Event) (s : PSt), ProcOK W rk key g s →
+    fuelOKE W rk fuel h = true → ProcOK W rk key g (runE W fuel key g s h) := by
+  intro h
+  induction h with
+  | nil => intro s hs _; exact hs
+  | cons e h ih =>
+    intro s hs hf
+    simp only [fuelOKE, List.all_cons, Bool.and_eq_true] at hf
+    simp only [runE, List.foldl_cons]
+    exact ih _ (stepE_spec W rk hr fuel key g hk s hs e (by simp [fuelOKE, hf.1])).2 (by simpa [fuelOKE] using hf.2)
 
 end Pya.C10
